@@ -1,5 +1,6 @@
 import NflowsModel.Audit.Tool
 import NflowsModel.Properties.C02
 import NflowsModel.Properties.C02E
+import NflowsModel.Properties.C02V
 
 #audit_namespace Properties.C02
